@@ -66,9 +66,11 @@ def _check_chunk(cases):
                     for bt, per in c["per"].items():
                         data = verif.data.Data([verif.input.get_input(path)])
                         iv = verif.util.get_intervals(bt, np.array([1.0, 2.0]))[0]
-                        for name, ex in per["scores"].items():
-                            got = verif.metric.get(name).compute_single(data, 0, No, 0, iv)
-                            cmp("prob:" + name, "%s -b %s -r 1,2 on cases(obs,cdf1,cdf2)=%r" % (name, bt, c["cases"]), ex, got)
+                        # all scores twice on the SAME Data object: a score that rewrites what the dataset handed out shows in the second pass
+                        for again in ("", " (second evaluation on the same Data object)"):
+                            for name, ex in per["scores"].items():
+                                got = verif.metric.get(name).compute_single(data, 0, No, 0, iv)
+                                cmp("prob:" + name, "%s -b %s -r 1,2 on cases(obs,cdf1,cdf2)=%r%s" % (name, bt, c["cases"], again), ex, got)
                 elif c["kind"] == "quant":
                     inp = _file_input(c["cases"], {"obs": 0, "fcst": 1})
                     inp["quantiles"] = [0.25, 0.75]
